@@ -101,6 +101,25 @@ func genC10(e *emitter, tier string) {
 			}
 		}
 	}
+	// large tensors (sizes at which kernels switch to block-wise / parallel loops; not multiples of the
+	// usual block sizes): every element of the result is still the function of its own input element
+	for _, n := range []int{9001, 12345} {
+		big := func(dt string) *TJ {
+			v := make([]float64, n)
+			for i := range v {
+				v[i] = float64((i*7+3)%41-20) / 4
+			}
+			return fT(dt, []int{n}, v)
+		}
+		for _, op := range unaryFloatOps {
+			e.emit(opCase("large", op, nil, []*TJ{big("f32")}, nil))
+		}
+		e.emit(opCase("large", "Abs", nil, []*TJ{seqT("i32", []int{n}, func(i int) float64 { return float64(i%37 - 18) })}, nil))
+		e.emit(opCase("large", "Not", nil, []*TJ{seqT("bool", []int{n}, func(i int) float64 { return float64((i / 3) % 2) })}, nil))
+		e.emit(opCase("large", "PRelu", nil, []*TJ{seqT("f32", []int{3, n / 3}, func(i int) float64 { return float64(i%23 - 11) }), seqT("f32", []int{n / 3}, func(i int) float64 { return float64(i%5 - 2) })}, nil))
+		e.emit(opCase("large", "PRelu", nil, []*TJ{seqT("i32", []int{n}, func(i int) float64 { return float64(i%23 - 11) }), seqT("i32", []int{n}, func(i int) float64 { return float64(i%5 - 2) })}, nil))
+		e.emit(opCase("large", "Relu", nil, []*TJ{seqT("f32", []int{n}, func(i int) float64 { return float64(i%23 - 11) })}, nil))
+	}
 }
 
 func genC11(e *emitter, tier string) {
